@@ -87,7 +87,7 @@ MANIFEST = {
         "design_ref": "DESIGN.md 3/C03",
     }
 }
-PROPS = ["Nstd.Seq.Props", "Nstd.Seq.PropsSort", "Nstd.Seq.PropsAlias", "Nstd.Seq.PropsHeap", "Nstd.Seq.PropsLink", "Nstd.Seq.PropsSortG", "Nstd.Seq.PropsArr", "Nstd.Seq.PropsArr2", "Nstd.Seq.PropsArr3", "Nstd.Seq.PropsArr4", "Nstd.Seq.PropsSortT", "Nstd.Seq.PropsListT", "Nstd.Seq.PropsPolicy"]
+PROPS = ["Nstd.Seq.Props", "Nstd.Seq.PropsSort", "Nstd.Seq.PropsAlias", "Nstd.Seq.PropsHeap", "Nstd.Seq.PropsLink", "Nstd.Seq.PropsSortG", "Nstd.Seq.PropsArr", "Nstd.Seq.PropsArr2", "Nstd.Seq.PropsArr3", "Nstd.Seq.PropsArr4", "Nstd.Seq.PropsArr5", "Nstd.Seq.PropsSortT", "Nstd.Seq.PropsListT", "Nstd.Seq.PropsPolicy"]
 LEAN_TARGETS = PROPS + ["drv_seq"]
 DRIVER = "drv_seq"
 
